@@ -391,7 +391,9 @@ class PyCParser(ParserInterface):
         """True is node is a (non-empty) loop statement."""
         return (isinstance(node, (self.While, self.For, self.DoWhile))
                 and hasattr(node, 'stmt') and node.stmt
-                and not isinstance(node.stmt, self.EmptyStatement))
+                and not isinstance(node.stmt, self.EmptyStatement)
+                and not (isinstance(node.stmt, self.Compound)
+                         and not node.stmt.block_items))
 
     def to_c(self, node: Any, compact: bool = False) -> str:
         """Translate node back to C code."""
